@@ -327,6 +327,135 @@ def run_case(case, ctx):
         dsops.rmtree(root)
 
 
+# ---------------------------------------------------- instrument validation
+def _deterministic_names():
+    """uuid4 / time.time as counters: two runs produce the same file names."""
+    import time as _time
+    import uuid as _uuid
+    state = {"u": 0, "t": 1_700_000_000.0}
+
+    def uuid4():
+        state["u"] += 1
+        return _uuid.UUID(int=(0xabc0 << 96) + state["u"])
+
+    def now():
+        state["t"] += 0.001
+        return state["t"]
+
+    _uuid.uuid4 = uuid4
+    _time.time = now
+
+
+def _observed_run(args):
+    """(grand)child: run the observed session on a private copy."""
+    from sedpack.io import Dataset
+    case, src, work, kill_at, observe = args
+    import shutil
+    _deterministic_names()
+    shutil.copytree(src, work / "ds")
+    h = history.History.__new__(history.History)
+    h.root = work / "ds"
+    h.desc = case["desc"]
+    h.ds = Dataset(h.root)
+    h.model = {s: [] for s in dsops.SPLITS}
+    h.dirs = list(case.get("_dirs", []))
+    h.session_no = 50
+    h.sessions = []
+    h.new_dir_counter = 50
+    h.results = None
+    if not observe:
+        h.apply(case["crash"])
+        return {"final": dsops.tree_digest(h.root)}
+    snap = fsfault.Snapshotter(h.root, work / "snap", case["torn"], False)
+    snap.kill_at = kill_at
+    snap.install()
+    try:
+        snap.snapshot("pre-session")
+        h.apply(case["crash"])
+        snap.snapshot("post-session")
+    finally:
+        snap.uninstall()
+    digests = {}
+    for b, key in snap.boundary_keys.items():
+        digests[b] = dsops.tree_digest(Path(snap.states[key]["dir"]))
+    return {"final": dsops.tree_digest(h.root), "by_boundary": digests,
+            "boundaries": snap.boundary}
+
+
+def run_killcheck(case, ctx):
+    """The snapshot taken at boundary b must equal, byte for byte, the
+    directory left behind by a process that really dies (SIGKILL) at b; and
+    the interposed run must end in the same state as an uninstrumented run.
+    A mismatch is a defect of the INSTRUMENT (harness error), never a
+    property violation."""
+    import os
+    import signal
+    from vlib import forkrun
+    desc = case["desc"]
+    root = env.scratch_dir("c06k")
+    try:
+        h = history.History(root / "base" / "ds", desc)
+        for op in case["prefix"]:
+            try:
+                h.apply(op)
+            except history.SessionFailed:
+                return
+        case = dict(case, _dirs=list(h.dirs))
+        src = h.root
+        (root / "r0").mkdir()
+        (root / "r1").mkdir()
+        plain = forkrun.run_in_child(_observed_run,
+                                     (case, src, root / "r0", None, False),
+                                     timeout=300)
+        obs = forkrun.run_in_child(_observed_run,
+                                   (case, src, root / "r1", None, True),
+                                   timeout=600)
+        if plain["final"] != obs["final"]:
+            raise RuntimeError(
+                "instrument: interposed run ends in a different state than "
+                "the uninstrumented run: " + str(
+                    sorted(set(plain["final"].items()) ^ set(obs["final"].items()))[:6]))
+        nb = obs["boundaries"]
+        for frac in case["kill_fracs"]:
+            b = 1 + (frac * (nb - 1)) // 1000
+            work = root / f"k{b}"
+            if work.exists():
+                continue
+            work.mkdir()
+            try:
+                forkrun.run_in_child(_observed_run,
+                                     (case, src, work, b, True), timeout=600)
+                raise RuntimeError(f"instrument: kill at boundary {b} of "
+                                   f"{nb} did not kill")
+            except forkrun.ChildDied as died:
+                if not (os.WIFSIGNALED(died.status) and
+                        os.WTERMSIG(died.status) == signal.SIGKILL):
+                    raise RuntimeError(
+                        f"instrument: child died with status {died.status}"
+                    ) from died
+            left = dsops.tree_digest(work / "ds")
+            if left != obs["by_boundary"][b]:
+                diff = sorted(set(left.items()) ^ set(
+                    obs["by_boundary"][b].items()))[:6]
+                raise RuntimeError(
+                    f"instrument: directory after SIGKILL at boundary {b} "
+                    f"differs from the snapshot: {diff}")
+            ctx.count("kill_points_validated")
+            ctx.nontrivial(["kill", desc["fmt"], case["crash"]["k"], b, nb])
+        ctx.label("killcheck", "fmt=" + desc["fmt"])
+    finally:
+        dsops.rmtree(root)
+
+
+@st.composite
+def strategy_killcheck(draw, tier):
+    case = draw(strategy_case(tier))
+    case["kill_fracs"] = draw(
+        st.lists(st.integers(0, 1000), min_size=3, max_size=8))
+    case["all_meta_offsets"] = False
+    return case
+
+
 STAGES = [
     Stage(name="crash",
           run=run_case,
@@ -336,5 +465,14 @@ STAGES = [
               "thorough": 1200
           },
           fork=True,
-          timeout=900)
+          timeout=900),
+    Stage(name="killcheck",
+          run=run_killcheck,
+          strategy=lambda tier: strategy_killcheck(tier),
+          examples={
+              "quick": 16,
+              "thorough": 200
+          },
+          fork=True,
+          timeout=1800),
 ]
